@@ -14,9 +14,11 @@ LEVEL = "model_checking"
 
 def run(ck):
     q = ck.quick()
-    urows, urows2 = histories(ck, "tables", "UserTable", "User2.cfg" if q else "User3.cfg", "UserSim.cfg", 40 if q else 300, 12)
+    urows, urows2 = histories(ck, "tables", "UserTable", "User2.cfg" if q else "User3.cfg", "UserSim.cfg", 40 if q else 300, 12,
+                                "UserDeep4.cfg" if q else "UserDeep5.cfg")
     replay(ck, urows + urows2, "TestUsers", "C18:user", "user")
-    rrows, rrows2 = histories(ck, "tables", "RouteTable", "Route2.cfg", "RouteSim.cfg", 40 if q else 200, 12)
+    rrows, rrows2 = histories(ck, "tables", "RouteTable", "Route2.cfg", "RouteSim.cfg", 40 if q else 200, 12,
+                                "RouteDeep5.cfg" if q else "RouteDeep6.cfg")
     replay(ck, rrows + rrows2, "TestRoutes", "C18:route", "route")
     ck.cov["exhaustive"] = True
 
